@@ -297,6 +297,28 @@ class Program:
                     self.lib_enum_alias.setdefault(st.name, values)
 
     # ------------------------------------------------------------------ queries
+    def compared_members(self, cls: str) -> set[str]:
+        """members of the (library) enum `cls` that the handler modules compare against literally (==, !=, in, match):
+        the abstraction of that enum must keep exactly these apart; every other member may be lumped together"""
+        cache = self.__dict__.setdefault("_cmp_members", {})
+        if cls not in cache:
+            found: set[str] = set()
+            for m, mi in self.modules.items():
+                if not (m.startswith(f"{self.pkg}.handler") or m == f"{self.pkg}.mib"):
+                    continue
+                for n in ast.walk(mi.tree):
+                    operands: list[ast.AST] = []
+                    if isinstance(n, ast.Compare):
+                        operands = [n.left] + list(n.comparators)
+                    elif isinstance(n, ast.Match):
+                        operands = [c.pattern for c in n.cases]
+                    for o in operands:
+                        for y in ast.walk(o):
+                            if isinstance(y, ast.Attribute) and isinstance(y.value, ast.Name) and y.value.id == cls:
+                                found.add(y.attr)
+            cache[cls] = found
+        return cache[cls]
+
     def enum_is_falsy(self, cls: str, name: str) -> bool:
         """IntEnum members with value 0 are falsy (e.g. TransmissionMode.ACKNOWLEDGED)"""
         val = None
